@@ -7,22 +7,25 @@ import (
 
 // ProgOpts are the knobs of the program generator.
 type ProgOpts struct {
-	MaxStmts   int  // statements per block
-	MaxDepth   int  // nesting depth of statements
-	ExprDepth  int  // nesting depth of expressions
-	Try        bool // try/catch/finally/throw
-	Funcs      bool // function literals, closures, calls
-	Loops      bool
-	Containers bool // arrays, maps, indexing
-	Builtins   bool // len, append, typeName
-	Floats     bool
-	Strings    bool
-	Log        bool // append side-effect markers to the global `log`
-	Params     int  // number of `param` names (a0..)
-	FailOps    bool // operations that raise runtime errors (1/0 via variables, bad index, call of non-callable)
-	NoCycles   bool // index assignments store integer literals only: no container can come to contain itself
-	// (String()/Equal() of a cyclic container recurse until the Go runtime aborts the process with
-	// "fatal error: stack overflow", which no recover() intercepts: known finding C06:fatal-stack-overflow)
+	MaxStmts      int  // statements per block
+	MaxDepth      int  // nesting depth of statements
+	ExprDepth     int  // nesting depth of expressions
+	Try           bool // try/catch/finally/throw
+	Funcs         bool // function literals, closures, calls
+	Loops         bool
+	Containers    bool // arrays, maps, indexing
+	Builtins      bool // len, append, typeName
+	Floats        bool
+	Strings       bool
+	Log           bool // append side-effect markers to the global `log`
+	Params        int  // number of `param` names (a0..)
+	Decls         bool // var/const groups, iota, destructuring, inc/dec
+	TryHeavy      bool // many nested try/catch/finally with every exit kind
+	CallHeavy     bool // many functions, closures, variadic/spread calls
+	FailOps       bool // operations that raise runtime errors (1/0 via variables, bad index, call of non-callable)
+	NoTopReturn   bool // no `return` outside function literals (stream eval: fragments must not return early)
+	SingleKeyMaps bool // map literals with at most one key (their String() does not depend on Go's map order)
+	NoCycles   bool // no-op (kept for callers): every store into a container is scalar-only in every mode (scalarExpr)
 }
 
 // DefaultProgOpts is a mostly-valid mix of everything the VM model supports.
@@ -33,8 +36,8 @@ func DefaultProgOpts() ProgOpts {
 
 type scope struct {
 	kinds  map[string]byte // 'I' int, 'B' bool, 'S' string, 'A' array, 'M' map, 'X' unknown
-	vars   []string // assignable variables visible here
-	funcs  []string // names known to hold functions (with arity)
+	vars   []string        // assignable variables visible here
+	funcs  []string        // names known to hold functions (with arity)
 	arity  map[string]int
 	inLoop bool
 	inFunc bool
@@ -95,6 +98,9 @@ func (g *progGen) logStmt(ind string) string {
 func (g *progGen) stmt(sb *strings.Builder, sc *scope, depth int, ind string) {
 	o := g.o
 	choices := []string{"decl", "decl", "assign", "assign", "expr"}
+	if o.Decls {
+		choices = append(choices, "vardecl", "constdecl", "destruct", "incdec")
+	}
 	if o.Log {
 		choices = append(choices, "log", "log")
 	}
@@ -105,9 +111,15 @@ func (g *progGen) stmt(sb *strings.Builder, sc *scope, depth int, ind string) {
 		}
 		if o.Try {
 			choices = append(choices, "try", "try")
+			if o.TryHeavy {
+				choices = append(choices, "try", "try", "try", "try", "for", "throw", "return")
+			}
 		}
 		if o.Funcs {
 			choices = append(choices, "func", "call")
+			if o.CallHeavy {
+				choices = append(choices, "func", "func", "call", "call", "call", "retcall")
+			}
 		}
 	}
 	if o.Try && (sc.inTry || g.r.Intn(6) == 0) {
@@ -116,7 +128,7 @@ func (g *progGen) stmt(sb *strings.Builder, sc *scope, depth int, ind string) {
 	if sc.inLoop {
 		choices = append(choices, "break", "continue")
 	}
-	if sc.inFunc || depth > 0 {
+	if sc.inFunc || (depth > 0 && !o.NoTopReturn) {
 		choices = append(choices, "return")
 	}
 	if o.Containers && len(sc.vars) > 0 {
@@ -129,6 +141,49 @@ func (g *progGen) stmt(sb *strings.Builder, sc *scope, depth int, ind string) {
 		fmt.Fprintf(sb, "%s%s := %s\n", ind, v, g.exprK(sc, o.ExprDepth, k))
 		sc.vars = append(sc.vars, v)
 		sc.kinds[v] = k
+	case "vardecl":
+		a, b := g.fresh("v"), g.fresh("v")
+		switch g.r.Intn(3) {
+		case 0:
+			fmt.Fprintf(sb, "%svar %s\n", ind, a)
+			sc.kinds[a] = 'X'
+			sc.vars = append(sc.vars, a)
+		case 1:
+			fmt.Fprintf(sb, "%svar %s = %s\n", ind, a, g.exprK(sc, 1, 'I'))
+			sc.kinds[a] = 'I'
+			sc.vars = append(sc.vars, a)
+		default:
+			fmt.Fprintf(sb, "%svar (%s = %s; %s)\n", ind, a, g.exprK(sc, 1, 'I'), b)
+			sc.kinds[a], sc.kinds[b] = 'I', 'X'
+			sc.vars = append(sc.vars, a, b)
+		}
+	case "constdecl":
+		a, b, c3 := g.fresh("c"), g.fresh("c"), g.fresh("c")
+		switch g.r.Intn(3) {
+		case 0:
+			fmt.Fprintf(sb, "%sconst %s = %s\n", ind, a, []string{"1", "2", "\"s\"", "true", "1.5", "'x'"}[g.r.Intn(6)])
+		case 1:
+			fmt.Fprintf(sb, "%sconst (%s = iota; %s; %s)\n", ind, a, b, c3)
+		default:
+			fmt.Fprintf(sb, "%sconst (%s = iota + 1; %s; %s = 7)\n", ind, a, b, c3)
+		}
+		// constants are readable but not assignable: expose as read-only via an alias variable
+		al := g.fresh("v")
+		fmt.Fprintf(sb, "%s%s := %s\n", ind, al, a)
+		sc.kinds[al] = 'X'
+		sc.vars = append(sc.vars, al)
+	case "destruct":
+		a, b := g.fresh("v"), g.fresh("v")
+		fmt.Fprintf(sb, "%s%s, %s := %s\n", ind, a, b, g.exprK(sc, 1, 'A'))
+		sc.kinds[a], sc.kinds[b] = 'X', 'X'
+		sc.vars = append(sc.vars, a, b)
+	case "incdec":
+		v := g.varOfKind(sc, 'I')
+		if v == "" || strings.HasPrefix(v, "i") {
+			sb.WriteString(g.logStmt(ind))
+			return
+		}
+		fmt.Fprintf(sb, "%s%s%s\n", ind, v, []string{"++", "--"}[g.r.Intn(2)])
 	case "assign":
 		if len(sc.vars) == 0 {
 			sb.WriteString(g.logStmt(ind))
@@ -254,12 +309,18 @@ func (g *progGen) stmt(sb *strings.Builder, sc *scope, depth int, ind string) {
 		}
 	case "call":
 		fmt.Fprintf(sb, "%s%s\n", ind, g.callExpr(sc, o.ExprDepth))
+	case "retcall":
+		fmt.Fprintf(sb, "%sreturn %s\n", ind, g.callExpr(sc, o.ExprDepth))
 	case "setindex":
 		v := g.varOfKind(sc, 'A')
 		if v == "" {
 			v = g.varOfKind(sc, 'M')
 			if v != "" {
-				fmt.Fprintf(sb, "%s%s.%s = %s\n", ind, v, []string{"a", "b", "k"}[g.r.Intn(3)], g.stored(sc))
+				key := []string{"a", "b", "k"}[g.r.Intn(3)]
+				if g.o.SingleKeyMaps {
+					key = "a"
+				}
+				fmt.Fprintf(sb, "%s%s.%s = %s\n", ind, v, key, g.scalarExpr(sc, 2))
 				return
 			}
 		}
@@ -270,8 +331,38 @@ func (g *progGen) stmt(sb *strings.Builder, sc *scope, depth int, ind string) {
 		if v == "" || (g.o.FailOps && g.r.Intn(12) == 0) {
 			v = sc.vars[g.r.Intn(len(sc.vars))]
 		}
-		fmt.Fprintf(sb, "%s%s[%s] = %s\n", ind, v, g.smallIdx(), g.stored(sc))
+		fmt.Fprintf(sb, "%s%s[%s] = %s\n", ind, v, g.smallIdx(), g.scalarExpr(sc, 2))
 	}
+}
+
+// scalarExpr is the right-hand side of every store INTO a container: it can only evaluate to an
+// int, a bool or a string (or fail), never to a container.  Scripts can build values that contain
+// themselves (`a[0] = a`), and rendering, copying or comparing such a value overflows the Go stack
+// of the implementation (known finding C19:cyclic-arg), which would kill the harness process.
+func (g *progGen) scalarExpr(sc *scope, depth int) string {
+	if depth <= 0 || g.r.Intn(3) == 0 {
+		lits := []string{"0", "1", "2", "3", "7", "(-1)", "100", "true", "\"s\"", "'c'"}
+		return lits[g.r.Intn(len(lits))]
+	}
+	switch g.r.Intn(4) {
+	case 0:
+		if len(sc.vars) > 0 && g.o.Builtins {
+			return "len(" + sc.vars[g.r.Intn(len(sc.vars))] + ")"
+		}
+	case 1:
+		if len(sc.vars) > 0 && g.o.Builtins {
+			return "typeName(" + sc.vars[g.r.Intn(len(sc.vars))] + ")"
+		}
+	case 2:
+		if len(sc.vars) > 0 {
+			return "(" + sc.vars[g.r.Intn(len(sc.vars))] + " == " + g.scalarExpr(sc, depth-1) + ")"
+		}
+	}
+	ops := []string{"+", "-", "*", "&", "|"}
+	if g.o.FailOps && g.r.Intn(4) == 0 {
+		ops = []string{"/", "%", "<<"}
+	}
+	return "(" + g.scalarExpr(sc, depth-1) + " " + ops[g.r.Intn(len(ops))] + " " + g.scalarExpr(sc, depth-1) + ")"
 }
 
 func (g *progGen) callExpr(sc *scope, depth int) string {
@@ -357,6 +448,9 @@ func (g *progGen) expr(sc *scope, depth int) string {
 		return g.arrayExpr(sc, depth)
 	case k == 11 && g.o.Containers:
 		n := g.r.Intn(3)
+		if g.o.SingleKeyMaps && n > 1 {
+			n = 1
+		}
 		var es []string
 		keys := []string{"a", "b", "k"}
 		for i := 0; i < n; i++ {
@@ -376,14 +470,6 @@ func (g *progGen) expr(sc *scope, depth int) string {
 		return g.callExpr(sc, depth)
 	}
 	return g.atom(sc)
-}
-
-// stored is the right-hand side of an index assignment.
-func (g *progGen) stored(sc *scope) string {
-	if g.o.NoCycles {
-		return []string{"0", "1", "2", "7", "(-1)", "100"}[g.r.Intn(6)]
-	}
-	return g.exprK(sc, 1, 'I')
 }
 
 func (g *progGen) smallIdx() string {
@@ -482,6 +568,9 @@ func (g *progGen) exprK(sc *scope, depth int, k byte) string {
 		return g.exprK(sc, depth-1, 'A') + "[" + []string{"0", "0", "1", "2"}[g.r.Intn(4)] + ":]"
 	case 'M':
 		n := g.r.Intn(3)
+		if g.o.SingleKeyMaps && n > 1 {
+			n = 1
+		}
 		var es []string
 		keys := []string{"a", "b", "k"}
 		for i := 0; i < n; i++ {
